@@ -12732,3 +12732,198 @@ func extraC17NoBulkBucketDrop(c *Ctx, r *Report) {
 	addMutants(Mutant{Prop: "C17", Name: "bucket-table-cleared-when-large", File: "internal/adapter/security/request_rate_limit.go", Rule: "C17-R16",
 		Old: "func (rl *RateLimitValidator) getOrCreateLimiter(key string, limit int) *ipLimiterInfo {\n", New: "func (rl *RateLimitValidator) getOrCreateLimiter(key string, limit int) *ipLimiterInfo {\n	if rl.ipLimiters.Size() >= 10000 {\n		rl.ipLimiters.Clear()\n	}\n"})
 }
+
+// ---------- C12-R16: the inspector cannot fail a request ----------
+func init() { registerExtra("C12", extraC12InspectorCannotFail) }
+
+func extraC12InspectorCannotFail(c *Ctx, r *Report) {
+	r.Rule("C12-R16", "in the Anthropic translator no returned error derives from the result of an inspector call (LogRequest / LogResponse, directly or through a helper that hands that result back): the inspector is a debugging aid writing to the local disk, and a valid request must be translated and forwarded whether or not a session file could be written. Folding the two 'log to the inspector' blocks into a helper that returns the error — and returning it — answers every request with 400 while the output directory is unwritable", 2)
+	memo := map[*ssa.Function]bool{}
+	var fromInspector func(v ssa.Value, d int) bool
+	var helperReturnsIt func(g *ssa.Function, d int) bool
+	fromInspector = func(v ssa.Value, d int) bool {
+		if v == nil || d == 0 {
+			return false
+		}
+		switch x := v.(type) {
+		case *ssa.Call:
+			name := ""
+			if x.Call.IsInvoke() {
+				name = x.Call.Method.Name()
+			} else if sc := x.Call.StaticCallee(); sc != nil {
+				name = sc.Name()
+				if strings.Contains(fnPkgPath(sc), "/adapter/inspector") && (name == "LogRequest" || name == "LogResponse") {
+					return true
+				}
+				if c.inRepo(sc) && helperReturnsIt(sc, d-1) {
+					return true
+				}
+			}
+			if x.Call.IsInvoke() && (name == "LogRequest" || name == "LogResponse") {
+				return true
+			}
+			ci := describeCall(&x.Call)
+			if ci.Pkg == "fmt" && ci.Name == "Errorf" && len(x.Call.Args) >= 2 {
+				for _, e := range variadicElemsOrdered(x.Call.Args[1]) {
+					if e != nil && fromInspector(e, d-1) {
+						return true
+					}
+				}
+			}
+		case *ssa.Extract:
+			return fromInspector(x.Tuple, d-1)
+		case *ssa.MakeInterface:
+			return fromInspector(x.X, d-1)
+		case *ssa.ChangeInterface:
+			return fromInspector(x.X, d-1)
+		case *ssa.Phi:
+			for _, e := range x.Edges {
+				if fromInspector(e, d-1) {
+					return true
+				}
+			}
+		}
+		return false
+	}
+	helperReturnsIt = func(g *ssa.Function, d int) bool {
+		if v, ok := memo[g]; ok {
+			return v
+		}
+		memo[g] = false
+		if g.Blocks == nil || d == 0 {
+			return false
+		}
+		res := g.Signature.Results()
+		if res.Len() == 0 || !types.Identical(res.At(res.Len()-1).Type(), types.Universe.Lookup("error").Type()) {
+			return false
+		}
+		for _, ret := range returnsOf(g) {
+			if fromInspector(retResult(ret, res.Len()-1), d) {
+				memo[g] = true
+			}
+		}
+		return memo[g]
+	}
+	n := 0
+	for _, f := range c.Funcs {
+		if !strings.HasSuffix(fnPkgPath(f), pkgAnthropic) || f.Blocks == nil {
+			continue
+		}
+		calls := false
+		eachInstr(f, func(in ssa.Instruction) {
+			if v, ok := in.(ssa.Value); ok {
+				if call, isCall := v.(*ssa.Call); isCall && fromInspector(call, 3) {
+					calls = true
+				}
+			}
+		})
+		if !calls {
+			continue
+		}
+		res := f.Signature.Results()
+		n++
+		key := fname(f) + ":inspector-result-not-returned"
+		if res.Len() == 0 || !types.Identical(res.At(res.Len()-1).Type(), types.Universe.Lookup("error").Type()) {
+			r.Triv("C12-R16", key, f.Pos(), "the function returns no error")
+			continue
+		}
+		// a thin helper that only relays the inspector's answer is judged at its callers
+		exported := f.Object() != nil && f.Object().Exported()
+		if helperReturnsIt(f, 4) && !exported {
+			r.Triv("C12-R16", key, f.Pos(), "relay helper: judged where its result is used")
+			continue
+		}
+		if helperReturnsIt(f, 4) {
+			r.Bad("C12-R16", key, f.Pos(), "an error of the inspector (a session file that could not be written) is returned to the caller: the handler answers the request with an error although it is valid — nothing is translated or forwarded while the inspector's output directory is unusable")
+		} else {
+			r.OK("C12-R16", key, f.Pos(), "inspector failures are logged, never returned")
+		}
+	}
+	if n == 0 {
+		r.Triv("C12-R16", "inspector-calls", token.NoPos, "the translator does not call the inspector")
+	}
+	addMutants(Mutant{Prop: "C12", Name: "inspector-failure-fails-the-request", File: "internal/adapter/translator/anthropic/request.go", Rule: "C12-R16",
+		Old: "			t.logger.Warn(\"Failed to log request to inspector\", \"error\", lerr)\n", New: "			return nil, fmt.Errorf(\"failed to record request: %w\", lerr)\n"})
+}
+
+// ---------- C12-R17: content of an unknown shape is an error, not an empty turn ----------
+func init() { registerExtra("C12", extraC12UnknownContentIsError) }
+
+func extraC12UnknownContentIsError(c *Ctx, r *Report) {
+	r.Rule("C12-R17", "in the function that converts one Anthropic message, a return without an error is only reachable through a successful type assertion (or type-switch arm) on the message's Content: on the path where every assertion on Content failed the function returns an error. A `case nil` (or a default) that returns 'nothing to convert' lets a message with null or missing content be dropped silently — the request is forwarded with that turn missing instead of being answered 400", 1)
+	n := 0
+	for _, f := range c.Funcs {
+		if !strings.HasSuffix(fnPkgPath(f), pkgAnthropic) || f.Blocks == nil || f.Parent() != nil {
+			continue
+		}
+		var msg *ssa.Parameter
+		for _, p := range f.Params {
+			if isNamed(p.Type(), pkgAnthropic, "AnthropicMessage") {
+				msg = p
+			}
+		}
+		res := f.Signature.Results()
+		if msg == nil || res.Len() < 2 || !types.Identical(res.At(res.Len()-1).Type(), types.Universe.Lookup("error").Type()) {
+			continue
+		}
+		// assertions on msg.Content
+		isContentAssert := func(v ssa.Value) bool {
+			ex, ok := v.(*ssa.Extract)
+			if !ok || ex.Index != 1 {
+				return false
+			}
+			ta, ok := ex.Tuple.(*ssa.TypeAssert)
+			return ok && ta.CommaOk && mentionsField(ta.X, pkgAnthropic, "AnthropicMessage", "Content", 4)
+		}
+		asserts := 0
+		eachInstr(f, func(in ssa.Instruction) {
+			if ta, ok := in.(*ssa.TypeAssert); ok && ta.CommaOk && mentionsField(ta.X, pkgAnthropic, "AnthropicMessage", "Content", 4) {
+				asserts++
+			}
+		})
+		if asserts == 0 {
+			continue
+		}
+		n++
+		key := fname(f) + ":unknown-content-is-an-error"
+		// walk the CFG taking only the FALSE edge of every assertion test
+		seen := map[*ssa.BasicBlock]bool{}
+		var bad *ssa.Return
+		var walk func(b *ssa.BasicBlock)
+		walk = func(b *ssa.BasicBlock) {
+			if seen[b] || bad != nil {
+				return
+			}
+			seen[b] = true
+			switch last := lastInstr(b).(type) {
+			case *ssa.Return:
+				if isNilConst(retResult(last, res.Len()-1)) {
+					bad = last
+				}
+			case *ssa.If:
+				if isContentAssert(last.Cond) {
+					walk(b.Succs[1])
+					return
+				}
+				for _, s := range b.Succs {
+					walk(s)
+				}
+			default:
+				for _, s := range b.Succs {
+					walk(s)
+				}
+			}
+		}
+		walk(f.Blocks[0])
+		if bad != nil {
+			r.Bad("C12-R17", key, retPos(f, bad), "the conversion can return without an error although no type assertion on the message's content succeeded (null / missing / unknown content): the turn is silently left out of the upstream request instead of the request being rejected")
+		} else {
+			r.OK("C12-R17", key, f.Pos(), "content of an unknown shape ends in an error")
+		}
+	}
+	if n == 0 {
+		r.Undecided("C12-R17", "message-converters", token.NoPos, "no function converting an AnthropicMessage by asserting on its Content found")
+	}
+	addMutants(Mutant{Prop: "C12", Name: "nil-content-converted-to-nothing", File: "internal/adapter/translator/anthropic/request.go", Rule: "C12-R17",
+		Old: "			return nil, fmt.Errorf(\"invalid content type: %T\", msg.Content)\n", New: "			if msg.Content == nil {\n				return result, nil\n			}\n			return nil, fmt.Errorf(\"invalid content type: %T\", msg.Content)\n"})
+}
